@@ -20,6 +20,16 @@
 #include "rlbox_unwrap.hpp"
 #include "rlbox_wrapper_traits.hpp"
 
+#ifdef ALLENABY_RLBOX_VERIF
+// Verification hook: deterministic interleave points between RLBox's successive
+// reads of sandbox memory, so that a harness can rewrite sandbox memory exactly
+// where a hostile sandbox thread could. Never defined in production builds.
+extern "C" void allenaby_rlbox_verif_interleave(int point);
+#  define RLBOX_VERIF_INTERLEAVE(point) allenaby_rlbox_verif_interleave(point)
+#else
+#  define RLBOX_VERIF_INTERLEAVE(point) ((void)0)
+#endif
+
 namespace rlbox {
 
 template<template<typename, typename> typename T_Wrap,
@@ -535,6 +545,7 @@ public:
       else
       {
         auto val = impl().get_raw_value();
+        RLBOX_VERIF_INTERLEAVE(1);
         if (val == nullptr) {
           return verifier(nullptr);
         } else {
@@ -610,6 +621,7 @@ private:
     }
 
     auto target = std::make_unique<T_CopyAndVerifyRangeEl[]>(count);
+    RLBOX_VERIF_INTERLEAVE(2);
 
     for (size_t i = 0; i < count; i++) {
       auto p_src_i_tainted = &(impl()[i]);
@@ -667,6 +679,7 @@ public:
     using T_VerifParam = detail::func_first_arg_t<T_Func>;
 
     auto start = impl().get_raw_value();
+    RLBOX_VERIF_INTERLEAVE(3);
     if_constexpr_named(
       cond1,
       std::is_same_v<T_VerifParam, std::unique_ptr<char[]>> ||
@@ -681,6 +694,7 @@ public:
       // sandbox however, copy_and_verify_range ensures that we never copy
       // memory outsider the range
       auto str_len = std::strlen(start) + 1;
+      RLBOX_VERIF_INTERLEAVE(4);
       std::unique_ptr<T_CopyAndVerifyRangeEl[]> target =
         copy_and_verify_range_helper(str_len);
 
@@ -701,6 +715,7 @@ public:
       // sandbox however, copy_and_verify_range ensures that we never copy
       // memory outsider the range
       auto str_len = std::strlen(start) + 1;
+      RLBOX_VERIF_INTERLEAVE(4);
 
       const char* checked_start = (const char*)verify_range_helper(str_len);
       if (checked_start == nullptr) {
